@@ -19,11 +19,27 @@ fn build(shape: usize, labels: &[u8], n_tags: usize) -> (Vec<char>, Vec<Option<S
     (text, tags)
 }
 
+/// `shape` = text shape (0/1) + 2 x origin of the sentence object: 0 = from_raw; 1 = from_raw, then
+/// predicted and tagged by a tag-predicting predictor before the labels are written (the sentence
+/// keeps a link to that predictor); 2 = a sentence that held another tokenized, tagged text and was
+/// then given this one with update_raw.
 pub fn check_case(shape: usize, labels: &[u8], n_tags: usize) -> Option<(String, String)> {
-    let (text, tags) = build(shape, labels, n_tags);
+    let origin = shape / 2;
+    let (text, tags) = build(shape % 2, labels, n_tags);
     let t: String = text.iter().collect();
     let made = guard(|| {
-        let mut s = Sentence::from_raw(t.clone()).expect("from_raw");
+        let mut s = match origin {
+            2 => {
+                let mut s = Sentence::from_tokenized("q/T1/T2 rr/U1/U2 s/V1/V2 ttt/W1/W2 u/X1/X2 v/Y1/Y2 w/Z1/Z2 xyz/A1/A2").expect("prior line");
+                s.update_raw(t.clone()).expect("update_raw");
+                s
+            }
+            _ => Sentence::from_raw(t.clone()).expect("from_raw"),
+        };
+        if origin == 1 {
+            crate::c06::other_predictor(labels.len()).predict(&mut s);
+            s.fill_tags();
+        }
         for (b, &l) in s.boundaries_mut().iter_mut().zip(labels) {
             *b = label(l);
         }
@@ -96,7 +112,7 @@ pub fn run(tier: Tier) -> ! {
     for n in 1..=max_n {
         let vs = gen::vectors(3, n - 1);
         vs.par_iter().for_each(|labels| {
-            for shape in 0..2 {
+            for shape in 0..6 {
                 for n_tags in [0usize, 2] {
                     chk.eval(1);
                     // non-trivial: at least one segment is skipped because it contains an unknown boundary
@@ -124,7 +140,7 @@ pub fn run(tier: Tier) -> ! {
         for period in [3usize, 4] {
             for pat in gen::vectors(3, period) {
                 let labels: Vec<u8> = (0..n - 1).map(|i| pat[i % period]).collect();
-                for shape in 0..2 {
+                for shape in 0..6 {
                     for n_tags in [0usize, 2] {
                         chk.eval(1);
                         chk.nontrivial(1);
